@@ -412,6 +412,92 @@ func sameFunc(v interface{}, orig reflect.Value) bool {
 	return rv.IsValid() && rv.Kind() == reflect.Func && rv.Pointer() == orig.Pointer()
 }
 
+// ---------- sub-check "residue": a run leaves nothing behind in the process ----------
+
+// A short program takes values the interpreter produces from shared boxes (the nil / true /
+// false literals, "no value" results, small computed integers, the literal 1 of ++) and
+// writes through every handle a script can get on them (pointer, ++, op=, element, field,
+// parameter). Afterwards a fixed canary program run in a FRESH environment must still
+// evaluate to what it evaluated to when the process started.
+type ResidueCase struct {
+	Stmts []string `json:"stmts"`
+}
+
+var residueSources = []string{"nil", "true", "false", "0", "1", "-1", "4095", "\"\"", "\"a\"", "(1 + 2)", "(2 * 3)", "len(\"abc\")", "nothing()", "(nil ?? nil)", "[nil][0]", "{\"k\": nil}.k", "(true ? nil : 0)", "one()", "[1, 2][0]", "(1 == 1)", "!true"}
+var residueWrites = []string{
+	"rv = %s\nrp = &rv\n*rp = %s",
+	"rv = %s\nrp = &rv\n*rp = %s\n*rp = %s",
+	"rv = %s\nrq = [&rv]\n*rq[0] = %s",
+	"rv = %s\nfunc(p) { *p = %s }(&rv)",
+	"rv = %s\nrv++",
+	"rv = %s\nrv += %s",
+	"rl = [%s]\nrp = &rl[0]\n*rp = %s",
+	"rs = make(struct{A interface})\nrs.A = %s\nrp = &rs.A\n*rp = %s",
+	"rv = %s\nrp = &rv\nrpp = &rp\n**rpp = %s",
+	"var rv = %s\nrp = &rv\n*rp = %s\nrv",
+}
+var residueValues = []string{"5", "\"x\"", "true", "nil", "[1]", "7.5", "-1"}
+
+func genResidue(t *rapid.T) ResidueCase {
+	var c ResidueCase
+	n := rapid.IntRange(1, 3).Draw(t, "n")
+	for i := 0; i < n; i++ {
+		w := rapid.SampledFrom(residueWrites).Draw(t, "write")
+		var args []interface{}
+		first := true
+		for j := 0; j+1 < len(w); j++ {
+			if w[j] == '%' && w[j+1] == 's' {
+				if first {
+					args = append(args, rapid.SampledFrom(residueSources).Draw(t, "src"))
+					first = false
+				} else {
+					args = append(args, rapid.SampledFrom(residueValues).Draw(t, "val"))
+				}
+			}
+		}
+		c.Stmts = append(c.Stmts, fmt.Sprintf(w, args...))
+	}
+	return c
+}
+
+const residueCanary = `func nothing() { }
+func one() { return 1 }
+cx = 0
+cx++
+[nil, true, false, 0, 1, -1, 2 + 2, 2 * 3, 4095 + 0, "" + "", "a" + "b", nothing(), nil ?? 3, [nil][0], {"k": nil}.k, len("abc"), one(), cx, 1 == 1, !true, (true ? nil : 0)]`
+
+var residueBaseline string
+
+func runCanary() string {
+	v, err := vm.Execute(env.NewEnv(), nil, residueCanary)
+	if err != nil {
+		return "error: " + err.Error()
+	}
+	return prog.RenderGo(v)
+}
+
+func oracleResidue(c ResidueCase, o *h.Obs) *h.Fail {
+	if residueBaseline == "" {
+		residueBaseline = runCanary()
+	}
+	src := "func nothing() { }\nfunc one() { return 1 }\n" + strings.Join(c.Stmts, "\n")
+	o.Key = src
+	o.NonTrivial = true
+	if cv := runCanary(); cv != residueBaseline {
+		return h.Failf("C14|residue|canary-already-changed", "the canary program no longer evaluates to its start-of-process result BEFORE this case ran (an earlier run left residue)\nbaseline %s\nnow      %s", residueBaseline, cv)
+	}
+	func() {
+		defer func() { recover() }()
+		ctx, cancel := context.WithTimeout(context.Background(), 2*time.Second)
+		defer cancel()
+		vm.ExecuteContext(ctx, env.NewEnv(), nil, src)
+	}()
+	if cv := runCanary(); cv != residueBaseline {
+		return h.Failf("C14|residue|a-run-changed-what-fresh-environments-compute", "after this program ran in its own environment, a fixed canary program run in a FRESH environment evaluates differently: executions share hidden mutable state\nprogram:\n%s\ncanary:\n%s\nbefore %s\nafter  %s", src, residueCanary, residueBaseline, cv)
+	}
+	return nil
+}
+
 func TestC14(t *testing.T) {
 	c := h.New(t, "C14")
 	defer c.Finish()
@@ -419,4 +505,6 @@ func TestC14(t *testing.T) {
 	h.Run(c, "reuse", c.N(800, 6000), gen, oracle)
 	h.Run(c, "tree", c.N(800, 6000), genWild, oracleWild)
 	h.Run(c, "import", c.N(400, 4000), genImport, oracleImport)
+	c.Rule("residue: 1-3 idioms that take a value the interpreter hands out from a shared box (nil/true/false literals, 'no value' results, small computed integers, the 1 of ++) and write through a pointer / ++ / op= / element / field / parameter; a fixed canary program in a fresh environment must evaluate as at process start; every case non-trivial")
+	h.Run(c, "residue", c.N(3000, 20000), genResidue, oracleResidue)
 }
